@@ -8,7 +8,7 @@ def run(chk, replay=None):
     if replay is not None and replay.get('m') == 'trace':
         return file_common.run_traces(chk, lambda e: e['a'] == 'Delete', 1, 0, replay=replay)
     t = 't' if chk.thorough else 'q'
-    cfgs = ['c04%s_%s' % (x, t) for x in 'abcdefg']
+    cfgs = ['c04%s_%s' % (x, t) for x in 'abcdefgh']
     sims = [('all', 3000 if chk.thorough else 150, 30)]
     judge = lambda r: r['step']['a'] == 'Delete'
     chk.rule = ('one case per Delete transition (victim x by-name/id/handle) of every reachable link graph in 7 bounded universes '
